@@ -1,12 +1,14 @@
+pub mod c08;
 pub mod c09;
+pub mod c12;
 
 use crate::framework::Prop;
 
 pub fn by_id(id: &str) -> Option<&'static dyn Prop> {
     match id {
+        "C08" => Some(&c08::C08),
         "C09" => Some(&c09::C09),
+        "C12" => Some(&c12::C12),
         _ => None,
     }
 }
-
-pub const ALL: &[&str] = &["C09"];
